@@ -3,7 +3,7 @@
    Byte strings are lists of Z; every theorem quantifies over ALL strings (and all schemas / keywords where they occur).
    What is NOT proved is listed in props/C09/meta.json (crash- and hang-freedom of the C++ is exploration only). *)
 From Coq Require Import ZArith List Bool Arith Lia.
-From CV Require Import C09.ParseModel C09.ParseProofs C09.NumProofs C09.LookupProofs C09.FlatProofs C09.ValueProofs C09.OrigProofs C09.NestedProofs C09.SeqProofs C09.ComposedProofs.
+From CV Require Import C09.ParseModel C09.ParseProofs C09.NumProofs C09.LookupProofs C09.FlatProofs C09.ValueProofs C09.OrigProofs C09.NestedProofs C09.SeqProofs C09.ComposedProofs C09.GenProofs Gen.GenC09Keywords.
 Import ListNotations.
 Local Open Scope Z_scope.
 
@@ -156,6 +156,20 @@ Theorem C09_unknown_keyword_rejected : forall strict schema conf vs, schema_ok s
             blank_line l \/ starts_with_keyword (schema_keywords schema) l.
 Proof. exact unknown_keyword_rejected. Qed.
 Print Assumptions C09_unknown_keyword_rejected.
+
+(* NO UNKNOWN TEXT (after the repair of check_keywords): in an accepted configuration every line of what remains after
+   the values are erased is blank, or begins with a keyword AND holds, after it, only braces and further keywords -
+   flat client and every level of the nested client.  The pinned check looked at the first word only:
+   `k { a } junk`, `colvar foo {` and a second `group1 { ... }` block were accepted and silently ignored. *)
+Theorem C09_no_unknown_text :
+  (forall strict schema conf vs, schema_ok schema -> parse_flat strict schema conf = PAccept vs ->
+     forall l, In l (split_lines (strip_values conf (registry_of strict schema conf))) -> line_clean (schema_keywords schema) l) /\
+  (forall strict items conf, nparse strict items conf = true ->
+     forall l, In l (split_lines (strip_values conf (level_registry strict items conf))) ->
+               line_clean (level_keywords strict items conf) l) /\
+  (exists allowed l, line_ok_pinned allowed l = true /\ line_ok allowed l = false).
+Proof. split; [exact no_unknown_text|split; [exact nparse_no_unknown_text|exact line_ok_pinned_refuted]]. Qed.
+Print Assumptions C09_no_unknown_text.
 
 (* "begins with a keyword" in the theorems above and below is equality of the lower-cased WHOLE first word of the line
    with a registered keyword (not a prefix test, not a substring test) *)
@@ -337,6 +351,32 @@ Theorem C09_tuple_value_strict : forall n data v,
   exists rest, skip_space data <> [] /\ extract_tuple n (skip_space data) = ExtOk v rest /\ all_space rest.
 Proof. exact tuple_value_strict. Qed.
 Print Assumptions C09_tuple_value_strict.
+
+(* lists of 3-vectors and of quaternions (std::vector<cvm::rvector>, std::vector<cvm::quaternion>): accepted iff the
+   whole text is a sequence of parenthesised tuples, each followed by white space or the end *)
+Theorem C09_tuple_vector_strict : forall n data vs,
+  vector_dyn (extract_tuple n) data = VAccept vs <-> tokens_of (extract_tuple n) data vs.
+Proof. exact tuple_vector_strict. Qed.
+Print Assumptions C09_tuple_vector_strict.
+
+(* ---------------------------------------------------------------- the real blocks (table regenerated on every run) *)
+
+(* Gen/GenC09Keywords.v lists, for every kind of real object (module level, colvar, components, atom group, each bias
+   type), the keywords its init() looks up, recorded from the binary built in this run.  Every one of them is a good
+   key, stored lower-cased; so the theorems above that assume good_key / schema_ok (key_lookup found-iff, totality,
+   unknown keyword, no unknown text) apply to every keyword of every real block; and a remaining line is accepted by
+   that block's check_keywords iff its first word, lower-cased, is one of the recorded keywords and the rest of the
+   line holds only braces and recorded keywords. *)
+Theorem GenC09_real_blocks_keywords : forall kind ks, In (kind, ks) real_keywords ->
+  (forall k, In k ks -> good_key k /\ to_lower k = k) /\
+  schema_ok (map (fun k => (k, KString)) ks) /\
+  (forall l, (line_ok ks l = true <-> line_clean ks l) /\
+             (starts_with_keyword ks l <-> In (to_lower (first_token (strip_cr l))) ks)).
+Proof.
+  intros kind ks Hi. destruct (table_ok_sound real_keywords real_keywords_ok kind ks Hi) as [H1 H2].
+  split; [exact H1|split; [exact H2|intros l; exact (real_block_line kind ks l Hi)]].
+Qed.
+Print Assumptions GenC09_real_blocks_keywords.
 
 (* ---------------------------------------------------------------- examples: the premises are satisfiable *)
 
